@@ -61,6 +61,8 @@ func sharedGroupExp() vlib.ExpAttr {
 		{Key: "m", Val: vlib.Value{Kind: "int", V: 2}},
 		{Key: "a", Val: vlib.Value{Kind: "string", V: "second"}},
 		{Key: "b", IsGroup: true, Group: []vlib.ExpAttr{{Key: "y", Val: vlib.Value{Kind: "int", V: 3}}, {Key: "x", Val: vlib.Value{Kind: "int", V: 4}}}},
+		// members already in key order, with a repeated key: nothing to sort, something to dedupe
+		{Key: "ord", IsGroup: true, Group: []vlib.ExpAttr{{Key: "id", Val: vlib.Value{Kind: "int", V: 1}}, {Key: "id", Val: vlib.Value{Kind: "int", V: 2}}, {Key: "user", Val: vlib.Value{Kind: "string", V: "u"}}}},
 	}}
 }
 
@@ -123,6 +125,9 @@ func run(t *rapid.T, test string, wl workload) {
 				return
 			}
 			sb.WriteString(a.Key())
+			if _, isGroup := a.Value().(slog.Attrs); !isGroup {
+				fmt.Fprintf(sb, "=%v", a.Value())
+			}
 			if items, ok := a.Value().(slog.Attrs); ok {
 				sb.WriteString("{")
 				for _, m := range items {
@@ -339,13 +344,20 @@ func run(t *rapid.T, test string, wl workload) {
 					continue
 				}
 				if c.bare {
-					switch c.sev {
-					case slog.ErrorLevel:
+					printf := (g+i)%2 == 1 // every other bare call through the printf-style verbs
+					switch {
+					case c.sev == slog.ErrorLevel && printf:
+						_ = loggers[c.logger].Errorf("%s", msg)
+					case c.sev == slog.ErrorLevel:
 						loggers[c.logger].Error(msg)
-					case slog.WarnLevel:
+					case c.sev == slog.WarnLevel && printf:
+						_ = loggers[c.logger].Warnf("%s", msg)
+					case c.sev == slog.WarnLevel:
 						loggers[c.logger].Warn(msg)
-					case slog.DebugLevel:
+					case c.sev == slog.DebugLevel:
 						loggers[c.logger].Debug(msg)
+					case printf:
+						_ = loggers[c.logger].Infof("%s", msg)
 					default:
 						loggers[c.logger].Info(msg)
 					}
